@@ -16,6 +16,9 @@ RULE = (
     "non-zero sub-second fraction (pairs: either has). Distinct by the "
     "integers themselves.")
 ASSUMPTIONS = [
+    "shards run under different process time zones (TZ unset, EST5EDT, "
+    "JST-9, +03:30, NZST/NZDT, UTC0); PV strings are also offered with "
+    "shorter fractions (trailing zeros dropped) and without a fraction",
     "reference conversion uses datetime(1970,1,1)+timedelta(microseconds=u), "
     "exact integer arithmetic in CPython",
     "tolerance for string->ns is < 500 ns (half the input resolution)",
@@ -63,6 +66,27 @@ def check_us(us: int) -> None:
     if back != want:
         raise Violation(
             f"PV -> OTel -> PV round trip of {want!r} gives {back!r}")
+    # the same instant written with a shorter fraction (trailing zeros
+    # dropped, e.g. millisecond precision) or without one
+    frac = want[20:26].rstrip("0")
+    variants = set()
+    if frac == "":
+        variants.add(want[:19] + "Z")
+        variants.add(want[:19] + ".0Z")
+    else:
+        variants.add(want[:20] + frac + "Z")
+        if len(frac) < 3:
+            variants.add(want[:20] + frac.ljust(3, "0") + "Z")
+    for v in sorted(variants):
+        try:
+            ns2 = to_ns(v)
+        except Exception as e:
+            raise Violation(f"convert_timestamp_to_unix_nano({v!r}) raised "
+                            f"{type(e).__name__}: {e}")
+        if abs(ns2 - 1000 * us) >= 500:
+            raise Violation(
+                f"convert_timestamp_to_unix_nano({v!r}) = {ns2}, the instant "
+                f"is {1000*us} ns (same instant as {want!r})")
 
 
 def check_pair(a: int, b: int) -> None:
@@ -138,8 +162,20 @@ def shrinker(case):
                 yield {"kind": "us", "us": c}
 
 
+TZS = [None, "EST5EDT,M3.2.0,M11.1.0", "JST-9", "<+0330>-3:30",
+       "NZST-12NZDT,M9.5.0,M4.1.0/3", "UTC0"]
+
+
 def run_shard(ctx):
     from hypothesis import strategies as st
+    # the conversions must not depend on the time zone of the process
+    import os
+    import time
+    tz = TZS[ctx.shard % len(TZS)]
+    if tz is not None:
+        os.environ["TZ"] = tz
+        time.tzset()
+    ctx.count("shards_with_TZ=" + str(tz))
     n = 3000 if ctx.tier == "quick" else 40000
 
     def fn(case):
